@@ -23,7 +23,7 @@ EXPLANATION = (
     'redefined GLOBAL; unknown operand type / bytecode position rejected), every function holding such a guard is reached by explicit calls from the model constructor and every declared operand set is built there, used or not; C19.2 every ordering comparison on a version '
     'string has both operands produced directly by packaging.version.parse; C19.3 #require: operator table, language name '
     'mismatch rejected on every matched #require line, model version compared with the required one in that order; C19.4 '
-    'the ISA version string is validated against the semantic version pattern. Not decided: completeness (well-formed '
+    'the ISA version string is validated against the semantic version pattern; the keyword table against which names are rejected holds every directive and every expression function the lexer recognises (C06.3 re-evaluated). Not decided: completeness (well-formed '
     'definitions are never rejected).'
 )
 ASSUMPTIONS = ['packaging.version.Version ordering is semantic-version ordering', 'an uncaught KeyError/TypeError during model construction is a rejection']
@@ -426,7 +426,14 @@ def c19_namespace(ctx):
     c10_4(ctx)
 
 
-RULES = [c19_1, c19_validated, c19_2, c19_3, c19_4, c19_namespace]
+def c19_keywords(ctx):
+    """'Named like an assembler keyword' is decided against the keyword table: that table holds every directive name and every
+    expression function the lexer recognises (LSB, BYTE0..BYTE9) - C06.3, re-evaluated here (a register `BYTE9` must be rejected)."""
+    from rules.c06 import c06_3
+    c06_3(ctx)
+
+
+RULES = [c19_1, c19_validated, c19_2, c19_3, c19_4, c19_namespace, c19_keywords]
 
 _M = 'assembler/model/__init__.py'
 _IS = 'assembler/model/instruction_set.py'
